@@ -244,7 +244,11 @@ func resolveRunPath(runPath string, opts py.CompileOpts, pathObjs []py.Object, t
 
 		// If an absolute path, just try that.
 		// Otherwise, check from the passed current dir then check from the current working dir.
-		fpath := path.Join(string(pathStr), runPath)
+		// An absolute pathname is used as it is (joining it to a search path would make it relative)
+		fpath := runPath
+		if !filepath.IsAbs(runPath) {
+			fpath = path.Join(string(pathStr), runPath)
+		}
 		if filepath.IsAbs(fpath) {
 			cont, err = tryPath(fpath)
 		} else {
